@@ -29,6 +29,7 @@ class Injector:
         self.prefix = os.path.join(os.path.realpath(REPO), 'labtech') + os.sep
         self.after_first = 0
         self.log = None          # when a list: (file, func, line) of every counted line event
+        self.base_threads = set()
         self.handler_entered = False   # the coordinator's `except KeyboardInterrupt` clause was reached after the 1st interrupt
 
     def install(self):
@@ -46,6 +47,7 @@ class Injector:
     def begin(self, events):
         self.events = events
         self.count = 0
+        self.base_threads = set(threading.enumerate())
         self.active = True
 
     def end(self):
@@ -70,6 +72,13 @@ class Injector:
                 self.after_first += 1
                 fire = self.after_first == self.n2
         if fire:
+            # a result-consumer helper thread started by the executor may still be running (an interrupt at the line of
+            # `consumer_thread.join()`): with a real signal that is a race between the helper and the handler; the sweep
+            # explores its deterministic end - the helper finishes first - which the model has as the neighbouring
+            # instant (listed under assumptions). Without this, a loaded machine makes the outcome schedule-dependent.
+            for th in threading.enumerate():
+                if th is not self.main and th not in self.base_threads and not th.daemon and th.is_alive():
+                    th.join(5)     # (a thread labtech started during this run: the result consumer)
             stack = []
             f = sys._getframe(1)
             while f is not None:
